@@ -12,6 +12,14 @@ CLAIMS = {
  "C14": dict(cat="other", design="DESIGN.md §3 C14",
    text="Static write/read-discipline audit over the MIR of the serialisation and parse cones: no dropped io::Write::write count (write_all or retry loop only), every Result propagated, in-crate Write/Read adapters forward the inner count, input consumed only via read_exact/read_to_end. Universal over all sinks/sources because it speaks about every call site on the cone; it does not compute the bytes.",
    technique="MIR call-site audit on call-graph cones (who-may-call + result-discipline dataflow)"),
+ "C18": dict(cat="proof", design="DESIGN.md §3 C18",
+   text="Complete abstract evaluation (bit-vector domain over 16/32 symbolic input bits, equality-switch refinement, interval predicates) of every FileMode conversion body in MIR; each obligation is discharged for all 65 536 words and all i32 values at once because every path of every body is enumerated in the abstract domain. A body that leaves the domain is reported, never passed.",
+   technique="abstract interpretation of MIR over a symbolic bit-vector domain (complete path enumeration)",
+   note="Trusted: rustc nightly MIR construction; soundness of rules/absint.py's bit-vector domain; POSIX S_IF* constants. No runtime execution of /repo code."),
+ "C20": dict(cat="proof", design="DESIGN.md §3 C20",
+   text="Complete abstract evaluation of both TryFrom impls for Timestamp (closures inlined, Result combinators / duration_since / as_secs / chrono timestamp / checked narrowing modelled symbolically): the derived (instant range -> result) table must equal {before epoch -> Underflow, 0..=u32::MAX -> Ok(secs), beyond -> Overflow}; plus derived-ordering and use-site propagation checks. Any panic-capable construct or unmodelled call leaves the domain and is reported.",
+   technique="abstract interpretation of MIR with symbolic interval predicates; impl-table check",
+   note="Trusted: rustc nightly MIR; the std/chrono call models in rules/c20.py (duration_since, as_secs, timestamp, TryInto<u32>) and the Result plumbing models in rules/absint.py; exactness of std/chrono arithmetic."),
 }
 
 NA = {
